@@ -76,8 +76,8 @@ _M = {
     "shear": [[0, 1, 1], [0, 0, 1], [0, 0, 0]],
     "skew": [[0, 1, -1], [-1, 0, 1], [1, -1, 0]],
 }
-_B = {"b1": [0.05, -0.025, 0.1], "b2": [-0.0625, 0.03125, 0.0], "b3": [0.1, 0.1, 0.1]}
-_D = {"d1": [1.125, 0.875, 1.25], "d2": [0.75, 1.25, 0.875], "uni": [1.5, 1.5, 1.5], "d4": [0.9, 1.1, 1.05]}
+_B = {"b1": [0.05, -0.025, 0.1], "b2": [-0.0625, 0.03125, 0.0], "b3": [0.1, 0.1, 0.1], "bf": [2.0**-10, -(2.0**-10), 2.0**-11]}
+_D = {"d1": [1.125, 0.875, 1.25], "d2": [0.75, 1.25, 0.875], "uni": [1.5, 1.5, 1.5], "d4": [0.9, 1.1, 1.05], "faint": [1.0 + 2.0**-9, 1.0 - 2.0**-9, 1.0]}
 
 # name -> (class, diagonal | None, (matrix name, eps) | None, translation | None)
 TRUTHS = {
@@ -94,6 +94,9 @@ TRUTHS = {
     "aff:d1+b2": ("affine", "d1", None, "b2"),
     "aff:gen+b1": ("affine", None, ("gen", 0.1), "b1"),
     "aff:shear+b3": ("affine", None, ("shear", 0.1), "b3"),
+    # faint casts (a few 1e-3 away from the identity: below one 8-bit grey level on most swatches)
+    "lin:faint": ("linear", None, ("gen", 2.0**-9), None),
+    "aff:faint": ("affine", "faint", ("skew", 2.0**-10), "bf"),
     # not representable by any balance: affine map plus a channel-wise quadratic 0.25*(x^2-x); no recovery is demanded, only
     # monotonicity and composition (every stage of a staged fit then stays away from the identity)
     "quad:gen+b1": ("nonaffine", None, ("gen", 0.1), "b1"),
@@ -122,7 +125,7 @@ SETS = ("f0", "f1", "classic")
 FORMS = ("4x6x3", "24x3", "6x3")
 # further forms of the single-balance lattice: the grid stored column-major (a transposed view / Fortran-
 # ordered reader) and a flat list of exactly three swatches (enough for diagonal and linear maps)
-EXTRA_FORMS = ("4x6x3-F", "3x3")
+EXTRA_FORMS = ("4x6x3-F", "3x3", "4x3")
 
 # start balances for "start = given" (what a previous, unrelated fit could have left behind)
 START_A = {1: np.diag([1.5, 0.5, 1.25]), 2: np.eye(3) + 0.125 * np.array(_M["gen"]).T, 3: np.eye(3) + 0.125 * np.array(_M["gen"]).T}
@@ -183,6 +186,13 @@ def shaped(S, form):
         return S[0].copy()
     if form == "4x6x3-F":
         return np.asfortranarray(S.copy())
+    if form == "4x3":
+        # exactly four swatches in general position: the least an affine map needs
+        flat = S.reshape(-1, 3)
+        for quad in itertools.combinations(range(len(flat)), 4):
+            if np.linalg.cond(np.hstack([flat[list(quad)], np.ones((4, 1))])) < 25:
+                return flat[list(quad)].copy()
+        raise ValueError("no well-conditioned swatch quadruple")
     if form == "3x3":
         flat = S.reshape(-1, 3)
         for trip in itertools.combinations(range(len(flat)), 3):
@@ -351,7 +361,7 @@ def _run_single(case, r):
     src0, dst0 = src.copy(), dst.copy()
     name = case["balance"]
     clsname, mode, level = BALANCES[name]
-    grid = {"4x6x3": "grid", "4x6x3-F": "grid-column-major", "3x3": "flat-3"}.get(case["form"], "flat")
+    grid = {"4x6x3": "grid", "4x6x3-F": "grid-column-major", "3x3": "flat-3", "4x3": "flat-4"}.get(case["form"], "flat")
     tag = f"{name}/truth={tcls}/{grid}/start={case['start']}"
     kw = {} if mode is None else {"mode": mode}
 
